@@ -682,6 +682,24 @@ def _callban(ctx, cfg, prog, mod):
 
 
 # ------------------------------------------------------------------------------------------ RNGRANGE
+def _width_gates(prog, mod, rb, root):
+    """True edges of `is_finite` tests of a computed width in one body; lines of tests on a bare value."""
+    import valueflow
+    al = mod.aliases(root)
+    gates = set()
+    weak = []
+    for bb, t in rb.calls():
+        if (t.callee or t.resolved or '').rsplit('::', 1)[-1] != 'is_finite' or not t.args or t.args[0].place is None:
+            continue
+        lv_ = valueflow.sources(rb, al, t.args[0].place.local)
+        calls = {(x[1].callee or x[1].resolved or '').rsplit('::', 1)[-1] for x in lv_ if x[0] == 'call'} - {'is_finite'}
+        if calls & set(WIDTH_OPS):
+            gates |= flow.call_flow(rb, bb).ok_edges
+        else:
+            weak.append(t.line)
+    return gates, weak
+
+
 RNG_SAMPLERS = ('random_range', 'gen_range', 'sample_single', 'sample_single_inclusive')
 WIDTH_OPS = ('sub', 'add', 'mul', 'abs_sub')
 
@@ -755,21 +773,24 @@ def _rngrange(ctx, cfg, prog, mod):
         if not use:
             ctx.ob('RNGRANGE', root, cfg, False, 'sampling closure is not created in the root function (unrecognised shape)', site=site)
             continue
-        gates = set()
-        weak = []
+        gates, weak = _width_gates(prog, mod, rb, root)
+        # a crate helper that validates the range (`validate_range(min, max)?`): its success edge is a gate when
+        # the helper itself cannot return success without its own finite-width edge
+        import gate as _gate
         for bb, t in rb.calls():
-            if (t.callee or t.resolved or '').rsplit('::', 1)[-1] != 'is_finite' or not t.args or t.args[0].place is None:
+            hq = t.resolved or t.callee
+            hb = prog.bodies.get(hq)
+            if hb is None or hb.kind == 'closure' or hq == root:
                 continue
-            lv_ = valueflow.sources(rb, al, t.args[0].place.local)
-            calls = {(x[1].callee or x[1].resolved or '').rsplit('::', 1)[-1] for x in lv_ if x[0] == 'call'} - {'is_finite'}
-            computed = bool(calls & set(WIDTH_OPS))
-            if computed:
-                gates |= flow.call_flow(rb, bb).ok_edges
-            else:
-                weak.append(t.line)
+            hg, _w = _width_gates(prog, mod, hb, hq)
+            if not hg:
+                continue
+            hreach = flow.reach_edges(hb, [0], avoid_edges=hg)
+            if any(e['bb'] in hreach for e in _gate.success_exit_blocks(hb)):
+                continue
+            gates |= flow.call_flow(rb, bb).ok_edges
         # a validation loop over the components (`for period in domain { if .. !period.is_finite() { return Err } }`):
         # its iterator-exhausted edge is a passing edge when no iteration completes without the finite edge
-        import gate as _gate
         gblocks = {bb_ for (bb_, _d) in gates}
         gates |= _gate._checked_loop_exhaustion_edges(rb, flow.all_call_flows(rb), gblocks, gates)
         reach = flow.reach_edges(rb, [0], avoid_edges=gates)
